@@ -35,8 +35,8 @@ package compat
 //@   ensures @repaired: common.IsInvalidUTF8Error(err) && c.lastRepairErr == nil ==> result == nil
 //@   ensures @unrepairable_reported: common.IsInvalidUTF8Error(err) && c.lastRepairErr != nil ==> result == err && result != nil
 
-//@ extern quiet adminConvertTo122
-//@ extern quiet frontendConvertTo122
+//@ extern quiet adminConvertTo122@convertAndRepairInvalidUTF8
+//@ extern quiet frontendConvertTo122@convertAndRepairInvalidUTF8
 //@ extern quiet (common.Marshaler).Unmarshal
 //@ extern quiet (common.Marshaler).Marshal
 //@ extern quiet RepairInvalidUTF8
@@ -75,3 +75,15 @@ package compat
 //@   callpre Errorf: @only_when_too_deep: failure != nil && count == maxFailureDepth
 //@   loop 1 invariant 0 <= count && count <= maxFailureDepth
 //@   loop 1 decreases maxFailureDepth - count
+
+// C17, 'a round trip through the legacy schema leaves every other field intact': the conversion tables hand back the
+// legacy message type of the SAME name as the message they are given (the two schemas share field numbers per type;
+// a neighbouring type would silently drop the fields it does not know).
+//@ contract frontendConvertTo122
+//@   props C17
+//@   ensures @same_message_type: result1 ==> result0 != nil && typename(result0) == typename(vAny)
+//@   ensures @unknown_type: !result1 ==> result0 == nil
+//@ contract adminConvertTo122
+//@   props C17
+//@   ensures @same_message_type: result1 ==> result0 != nil && typename(result0) == typename(vAny)
+//@   ensures @unknown_type: !result1 ==> result0 == nil
